@@ -236,8 +236,13 @@ def cache_params():
 
 
 def exec_params():
-    out = dict(start='StartUnknown', ctor='CtorUnknown')
+    out = dict(start='StartUnknown', ctor='CtorUnknown', wait='WaitUnknown')
     pr = _src('runners/process.py')
+    w = _find(pr, 'ProcessExecutor', 'wait')
+    if w is not None:
+        stm = [ast.unparse(n) for n in w.body if not (isinstance(n, ast.Expr) and isinstance(n.value, ast.Constant))]
+        if stm == ['self._consume_result_queue(timeout_seconds=timeout_seconds)', 'self._start_processes()', 'return split_done_futures(futures)']:
+            out['wait'] = 'WaitAlwaysStarts'
     fn = _find(pr, 'ProcessExecutor', '_start_processes')
     if fn is None:
         return out
@@ -383,7 +388,8 @@ def render():
     lines += ['Definition ctx_sites_src : ctx_sites := {| cf_serial := %(serial)s; cf_fork := %(fork)s; cf_spawn := %(spawn)s |}.' % xp]
     ep = exec_params()
     lines += ['Definition start_policy_src : start_policy := %(start)s.' % ep,
-              'Definition proc_ctor_src : proc_ctor := %(ctor)s.' % ep]
+              'Definition proc_ctor_src : proc_ctor := %(ctor)s.' % ep,
+              'Definition wait_policy_src : wait_policy := %(wait)s.' % ep]
     cp = cache_params()
     lines += ['Definition save_order_src : save_order := %(order)s.' % cp,
               'Definition save_cleanup_src : save_cleanup := %(cleanup)s.' % cp]
